@@ -5,6 +5,7 @@ from dataclasses import dataclass
 from pathlib import Path
 
 from kappadata.utils.logging import log
+from .copying_utils import create_folder_with_file
 from .copying_utils import folder_contains_mostly_zips, run_unzip_jobs
 
 
@@ -67,7 +68,12 @@ def copy_folder_from_global_to_local(
             log(log_fn, f"using manually copied dataset '{dst_path}'")
             return CopyFolderResult(was_copied=False, was_deleted=False, source_format=None)
     else:
-        dst_path.mkdir(parents=True)
+        # dst_path must never exist without its start_copy_file (it would be mistaken for a manually copied dataset)
+        create_folder_with_file(
+            folder=dst_path,
+            file_name=start_copy_file.name,
+            content="this file indicates that an attempt to copy the dataset automatically was started",
+        )
 
     # create start_copy_file
     with open(start_copy_file, "w") as f:
